@@ -8,7 +8,7 @@ export GOFLAGS=-mod=mod GOPROXY=off GOSUMDB=off GOTOOLCHAIN=local
 PROP=${1:-build}; TIER=${2:-quick}
 W=/verif/.work
 mkdir -p $W
-FILES="maponly:/repo/internal/machine/vm/machine.go /repo/internal/engine/command/commander.go /repo/internal/engine/command/context.go /repo/internal/engine/command/lock.go /repo/internal/engine/command/reference.go /repo/internal/engine/utils/batching/batcher.go /repo/internal/engine/utils/job/jobs.go /repo/libs/collectionutils/linked_list.go"
+FILES="maponly:/repo/internal/machine/vm/machine.go /repo/internal/engine/command/compiler.go /repo/internal/engine/command/commander.go /repo/internal/engine/command/context.go /repo/internal/engine/command/lock.go /repo/internal/engine/command/reference.go /repo/internal/engine/utils/batching/batcher.go /repo/internal/engine/utils/job/jobs.go /repo/libs/collectionutils/linked_list.go"
 build() {
   local variant=$1 flag=$2
   (cd xverif && go build -o $W/instr ./cmd/instr) 2> $W/build-sched.log || return 1
@@ -41,9 +41,14 @@ if ! build sync ""; then
   ./engine/undecided.sh "$PROP" "$TIER" "instrumented build failed"
   exit 0
 fi
-if [ "$TIER" = thorough ] || [ "$PROP" = build ]; then
+if [ "$TIER" = thorough ] || [ "$PROP" = build ] || [ "$PROP" = C08 ]; then
   build stmt "-stmt" || { echo "note: statement-granularity build failed"; rm -f $W/vsched-stmt; }
 fi
 [ "$PROP" = build ] && exit 0
 export VERIF_TIER=$TIER
+if [ "$PROP" = C08 ]; then
+  # the compilation cache has no synchronisation operations of its own: explore it at statement granularity
+  [ -x $W/vsched-stmt ] || { echo "UNDECIDED property=C08 statement-granularity build failed"; exit 0; }
+  exec $W/vsched-stmt "$PROP"
+fi
 exec $W/vsched-sync "$PROP"
